@@ -1,5 +1,6 @@
 import Req.H1.BufLine
 import Req.Lemmas.BufLine
+import Req.Client.Dump
 /-!
 C13 — dump is transparent and faithful: property theorems.
 
@@ -217,5 +218,378 @@ theorem old_dump_readline_equiv_when_fits (B : Nat) (st : Rd)
     rw [h1] at h
     simp only [dumpReadLineOld, dumpReadLine, h1]
     simp [h]
+
+end Req.Props.C13
+
+/-!
+Part 2: routing, wrappers, async delivery (`Req.Client.Dump`).
+`routing_resolve_*`      — which writer a part resolves to (own > direction > Output()).
+`routing`                — one dumper, one attempt: an enabled non-empty part is emitted exactly
+                           once, to exactly its resolved writer; a disabled part never.
+`selected_parts_exact`   — the bytes a writer holds are exactly the enabled parts resolved to
+                           it, each once, in order — for any number of dumpers and attempts.
+`wrappers_transparent`   — what passes through a dump wrapper (results seen by the caller, state
+                           of the wrapped writer/reader) is unchanged, for every sequence of
+                           writes / read sizes, also when wrappers are nested.
+`wrappers_exact`         — the wrapper dumped exactly the bytes that passed, once.
+`async_same_content`     — for every schedule of the sending goroutines and the `Start` loop the
+                           writers receive a prefix of what the synchronous dump writes, in order;
+                           all of it once the queue is drained; a fair schedule drains it.
+`unstarted_async_*`      — a dumper nobody started writes nothing and blocks its 21st sender
+                           (the request-level async defect of the pinned tree).
+-/
+namespace Req.Props.C13
+open Req.Proto Req.Client.Dump
+
+/-! ### routing -/
+
+theorem routing_resolve_own (o : Opts) :
+    (∀ w, o.requestHeaderOutput = some w → o.resolve .reqHeader = w) ∧
+    (∀ w, o.requestBodyOutput = some w → o.resolve .reqBody = w) ∧
+    (∀ w, o.responseHeaderOutput = some w → o.resolve .respHeader = w) ∧
+    (∀ w, o.responseBodyOutput = some w → o.resolve .respBody = w) := by
+  refine ⟨?_, ?_, ?_, ?_⟩ <;> intro w h <;> simp [Opts.resolve, pick, h]
+
+theorem routing_resolve_direction (o : Opts) :
+    (∀ w, o.requestHeaderOutput = none → o.requestOutput = some w → o.resolve .reqHeader = w) ∧
+    (∀ w, o.requestBodyOutput = none → o.requestOutput = some w → o.resolve .reqBody = w) ∧
+    (∀ w, o.responseHeaderOutput = none → o.responseOutput = some w → o.resolve .respHeader = w) ∧
+    (∀ w, o.responseBodyOutput = none → o.responseOutput = some w → o.resolve .respBody = w) := by
+  refine ⟨?_, ?_, ?_, ?_⟩ <;> intro w h1 h2 <;> simp [Opts.resolve, pick, h1, h2]
+
+theorem routing_resolve_default (o : Opts) :
+    (o.requestHeaderOutput = none → o.requestOutput = none → o.resolve .reqHeader = o.out) ∧
+    (o.requestBodyOutput = none → o.requestOutput = none → o.resolve .reqBody = o.out) ∧
+    (o.responseHeaderOutput = none → o.responseOutput = none → o.resolve .respHeader = o.out) ∧
+    (o.responseBodyOutput = none → o.responseOutput = none → o.resolve .respBody = o.out) := by
+  refine ⟨?_, ?_, ?_, ?_⟩ <;> intro h1 h2 <;> simp [Opts.resolve, pick, h1, h2]
+
+/-- After `newDumper` the default writer is never a nil one and only `Output` was touched. -/
+theorem newDumper_out (o : Opts) :
+    (newDumper o).out = (match o.output with | some w => w | none => stderr) ∧
+    ∀ p, (newDumper o).enabled p = o.enabled p := by
+  constructor
+  · unfold newDumper Opts.out; cases h : o.output <;> simp [h]
+  · intro p; unfold newDumper; cases h : o.output <;> cases p <;> rfl
+
+theorem events_of_part (c : Part → Bool) (ev : Part → PartEvent) (hev : ∀ q, (ev q).part = q)
+    (p : Part) (ps : List Part) (hnd : ps.Nodup) :
+    ((ps.filterMap fun q => if c q then some (ev q) else none).filter (·.part = p))
+    = if p ∈ ps ∧ c p = true then [ev p] else [] := by
+  induction ps with
+  | nil => simp
+  | cons q qs ih =>
+    have hq : q ∉ qs := (List.nodup_cons.mp hnd).1
+    have ih := ih (List.nodup_cons.mp hnd).2
+    simp only [List.filterMap_cons]
+    by_cases hc : c q = true
+    · simp only [hc, if_true, List.filter_cons, hev]
+      by_cases hqp : q = p
+      · subst hqp
+        rw [ih]; simp [hq, hc]
+      · have : ¬ p = q := fun h => hqp h.symm
+        rw [ih]; simp [hqp, this]
+    · simp only [Bool.not_eq_true] at hc
+      simp only [hc, Bool.false_eq_true, if_false]
+      by_cases hqp : q = p
+      · subst hqp
+        rw [ih]; simp [hq, hc]
+      · have : ¬ p = q := fun h => hqp h.symm
+        rw [ih]; simp [this]
+
+/-- **routing**: an enabled (non-empty) part goes, exactly once, to exactly the writer it
+resolves to; a disabled part goes to no writer. -/
+theorem routing (o : Opts) (e : Exchange) (p : Part) :
+    (o.enabled p = true → (e.part p).isEmpty = false →
+      (dumperEvents o e).filter (·.part = p) = [⟨o.resolve p, p, e.part p⟩]) ∧
+    (o.enabled p = false → (dumperEvents o e).filter (·.part = p) = []) := by
+  have hall : p ∈ Part.all := by cases p <;> simp [Part.all]
+  have h := events_of_part (fun q => o.enabled q && !(e.part q).isEmpty)
+    (fun q => ⟨o.resolve q, q, e.part q⟩) (fun _ => rfl) p Part.all (by decide)
+  unfold dumperEvents
+  constructor
+  · intro h1 h2
+    rw [h]; simp [hall, h1, h2]
+  · intro h1
+    rw [h]; simp [h1]
+
+example : dumperEvents { requestHeader := true, responseBody := true, output := some 1,
+                         responseBodyOutput := some 2 } ⟨[71], [1], [72], [98]⟩
+    = [⟨1, .reqHeader, [71]⟩, ⟨2, .respBody, [98]⟩] := by decide
+
+/-! ### each selected part exactly once, nothing else -/
+
+theorem contentP_append (w : Writer) (a b : List PartEvent) :
+    contentP w (a ++ b) = contentP w a ++ contentP w b := by
+  induction a with
+  | nil => simp [contentP]
+  | cons x xs ih => simp [contentP, ih]
+
+theorem contentP_dumper (o : Opts) (e : Exchange) (w : Writer) (ps : List Part) :
+    contentP w (ps.filterMap fun p =>
+        if o.enabled p && !(e.part p).isEmpty then some (⟨o.resolve p, p, e.part p⟩ : PartEvent) else none)
+    = (ps.filter fun p => o.enabled p && o.resolve p == w).flatMap e.part := by
+  induction ps with
+  | nil => simp [contentP]
+  | cons q qs ih =>
+    simp only [List.filterMap_cons, List.filter_cons]
+    by_cases h1 : o.enabled q = true <;> by_cases h2 : (e.part q).isEmpty = true <;>
+      by_cases h3 : o.resolve q = w <;> simp_all [contentP]
+
+/-- The selected parts of one attempt for writer `w`: the enabled parts that resolve to `w`,
+in wire order. -/
+def selectedParts (o : Opts) (e : Exchange) (w : Writer) : Bytes :=
+  (Part.all.filter fun p => o.enabled p && o.resolve p == w).flatMap e.part
+
+theorem contentP_dumpers (ds : List Opts) (e : Exchange) (w : Writer) :
+    contentP w (ds.flatMap fun o => dumperEvents o e) = ds.flatMap fun o => selectedParts o e w := by
+  induction ds with
+  | nil => simp [contentP]
+  | cons o os ih =>
+    simp only [List.flatMap_cons, contentP_append, ih]
+    congr 1
+    exact contentP_dumper o e w Part.all
+
+/-- **selected_parts_exact**: for any dumper list (client-level, request-level, both) and any
+number of attempts (retries, redirect hops) writer `w` holds exactly the selected parts, each
+once, attempt after attempt. -/
+theorem selected_parts_exact (ds : List Opts) (es : List Exchange) (w : Writer) :
+    expectedDump ds es w = es.flatMap fun e => ds.flatMap fun o => selectedParts o e w := by
+  unfold expectedDump expectedEvents
+  induction es with
+  | nil => simp [contentP]
+  | cons e es ih =>
+    simp only [List.flatMap_cons, contentP_append, ih, contentP_dumpers]
+
+theorem disabled_part_dumpers (ds : List Opts) (e : Exchange) (p : Part)
+    (h : ∀ o ∈ ds, o.enabled p = false) :
+    (ds.flatMap fun o => dumperEvents o e).filter (·.part = p) = [] := by
+  induction ds with
+  | nil => simp
+  | cons o os ih =>
+    simp only [List.flatMap_cons, List.filter_append]
+    rw [(routing o e p).2 (h o (by simp)), ih (fun o' ho' => h o' (by simp [ho']))]
+    simp
+
+/-- Nothing of a part that is switched off in every dumper reaches any writer. -/
+theorem disabled_part_nowhere (ds : List Opts) (es : List Exchange) (p : Part)
+    (h : ∀ o ∈ ds, o.enabled p = false) :
+    (expectedEvents ds es).filter (·.part = p) = [] := by
+  unfold expectedEvents
+  induction es with
+  | nil => simp
+  | cons e es ih =>
+    simp only [List.flatMap_cons, List.filter_append, ih, List.append_nil]
+    exact disabled_part_dumpers ds e p h
+
+example : expectedDump
+    [{ requestHeader := true, responseBody := true, output := some 1, responseBodyOutput := some 2 },
+     { responseBody := true, requestBody := true, output := some 3 }]
+    [⟨[71], [1], [72], [98]⟩, ⟨[71], [], [72], [99]⟩] 3 = [1, 98, 99] := by decide
+
+/-! ### wrappers -/
+
+/-- **wrappers_transparent** (writers): for every sequence of writes, the results the caller
+sees and everything the wrapped writer experiences are the same as without the wrapper. -/
+theorem wrappers_transparent {σ : Type} (w : WriterM σ) (s : σ) (d : Bytes) (ps : List Bytes) :
+    ((wrapWriter w).runAll (s, d) ps).1 = (w.runAll s ps).1 ∧
+    ((wrapWriter w).runAll (s, d) ps).2.1 = (w.runAll s ps).2 := by
+  induction ps generalizing s d with
+  | nil => simp [WriterM.runAll]
+  | cons p ps ih =>
+    have := ih (w.write s p).2 (d ++ p.take (w.write s p).1.n)
+    simp only [WriterM.runAll, wrapWriter] at this ⊢
+    simp [this.1, this.2]
+
+/-- What passed: the accepted prefix of every write. -/
+def passed : List Bytes → List IORes → Bytes
+  | p :: ps, r :: rs => p.take r.n ++ passed ps rs
+  | _, _ => []
+
+/-- **wrappers_exact** (writers): the dump is exactly the bytes that passed, once. -/
+theorem wrappers_exact {σ : Type} (w : WriterM σ) (s : σ) (d : Bytes) (ps : List Bytes) :
+    ((wrapWriter w).runAll (s, d) ps).2.2 = d ++ passed ps (w.runAll s ps).1 := by
+  induction ps generalizing s d with
+  | nil => simp [WriterM.runAll, passed]
+  | cons p ps ih =>
+    have := ih (w.write s p).2 (d ++ p.take (w.write s p).1.n)
+    simp only [WriterM.runAll, wrapWriter] at this ⊢
+    simp [this, passed]
+
+/-- Two dumpers (client-level and request-level) wrap the same writer twice: still
+transparent, and both dump the same bytes. -/
+theorem wrappers_nested {σ : Type} (w : WriterM σ) (s : σ) (ps : List Bytes) :
+    ((wrapWriter (wrapWriter w)).runAll ((s, []), []) ps).1 = (w.runAll s ps).1 ∧
+    ((wrapWriter (wrapWriter w)).runAll ((s, []), []) ps).2.1.1 = (w.runAll s ps).2 ∧
+    ((wrapWriter (wrapWriter w)).runAll ((s, []), []) ps).2.2 =
+      ((wrapWriter (wrapWriter w)).runAll ((s, []), []) ps).2.1.2 := by
+  have t1 := wrappers_transparent (wrapWriter w) (s, []) [] ps
+  have t2 := wrappers_transparent w s [] ps
+  have e1 := wrappers_exact (wrapWriter w) (s, []) [] ps
+  have e2 := wrappers_exact w s [] ps
+  refine ⟨t1.1.trans t2.1, ?_, ?_⟩
+  · rw [t1.2]; exact t2.2
+  · rw [e1, t1.2, e2, t2.1]
+
+/-- **wrappers_transparent** (response body reader): for every sequence of read sizes the
+caller gets the same data and errors, and the wrapped reader ends in the same state. -/
+theorem wrappers_transparent_reader {σ : Type} (r : ReaderM σ) (s : σ) (d : Bytes) (k : Nat)
+    (caps : List Nat) :
+    ((wrapReader r).runAll (s, d, k) caps).1 = (r.runAll s caps).1 ∧
+    ((wrapReader r).runAll (s, d, k) caps).2.1 = (r.runAll s caps).2 := by
+  induction caps generalizing s d k with
+  | nil => simp [ReaderM.runAll]
+  | cons c cs ih =>
+    have := ih (r.read s c).2 (d ++ (r.read s c).1.1) (if (r.read s c).1.2 = 1 then k + 1 else k)
+    simp only [ReaderM.runAll, wrapReader] at this ⊢
+    simp [this.1, this.2]
+
+def received : List (Bytes × Nat) → Bytes
+  | [] => []
+  | x :: xs => x.1 ++ received xs
+
+def eofs : List (Bytes × Nat) → Nat
+  | [] => 0
+  | x :: xs => (if x.2 = 1 then 1 else 0) + eofs xs
+
+/-- **wrappers_exact** (response body reader): the dumped body is exactly the bytes the caller
+received, once, and one separator is written per reported EOF. -/
+theorem wrappers_exact_reader {σ : Type} (r : ReaderM σ) (s : σ) (d : Bytes) (k : Nat)
+    (caps : List Nat) :
+    ((wrapReader r).runAll (s, d, k) caps).2.2.1 = d ++ received (r.runAll s caps).1 ∧
+    ((wrapReader r).runAll (s, d, k) caps).2.2.2 = k + eofs (r.runAll s caps).1 := by
+  induction caps generalizing s d k with
+  | nil => simp [ReaderM.runAll, received, eofs]
+  | cons c cs ih =>
+    have := ih (r.read s c).2 (d ++ (r.read s c).1.1) (if (r.read s c).1.2 = 1 then k + 1 else k)
+    simp only [ReaderM.runAll, wrapReader] at this ⊢
+    refine ⟨by simp [this.1, received], ?_⟩
+    rw [this.2]
+    simp only [eofs]
+    split <;> omega
+
+example : ((wrapWriter limitedWriter).runAll ((5, []), []) [[1, 2, 3], [4, 5, 6], [7]]) =
+    ([⟨3, 0⟩, ⟨2, 2⟩, ⟨0, 2⟩], ((0, [1, 2, 3, 4, 5]), [1, 2, 3, 4, 5])) := by decide
+
+example : ((wrapReader (bytesReader false)).runAll ([1, 2, 3], [], 0) [2, 2, 2]) =
+    ([([1, 2], 0), ([3], 0), ([], 1)], ([], [1, 2, 3], 1)) := by decide
+
+/-! ### async delivery -/
+
+/-- Channel invariant: written ++ queued ++ not-yet-sent is the program-order event list. -/
+theorem chan_step_inv (cap : Nat) (c c' : Chan) (st : Step) (h : c.step cap st = some c') :
+    c'.written ++ c'.queue ++ c'.todo = c.written ++ c.queue ++ c.todo ∧ c'.started = c.started := by
+  cases st with
+  | send =>
+    simp only [Chan.step] at h
+    split at h
+    · cases h
+    · split at h
+      · cases h; simp_all
+      · cases h
+  | recv =>
+    simp only [Chan.step] at h
+    split at h
+    · split at h
+      · cases h
+      · cases h; simp_all
+    · cases h
+
+theorem chan_run_inv (cap : Nat) (c : Chan) (sched : List Step) :
+    (c.run cap sched).written ++ (c.run cap sched).queue ++ (c.run cap sched).todo
+      = c.written ++ c.queue ++ c.todo ∧ (c.run cap sched).started = c.started := by
+  induction sched generalizing c with
+  | nil => simp [Chan.run]
+  | cons s ss ih =>
+    simp only [Chan.run]
+    cases h : c.step cap s with
+    | none => exact ih c
+    | some c' =>
+      have h1 := chan_step_inv cap c c' s h
+      have h2 := ih c'
+      exact ⟨h2.1.trans h1.1, h2.2.trans h1.2⟩
+
+theorem content_append (w : Writer) (a b : List Event) :
+    content w (a ++ b) = content w a ++ content w b := by
+  induction a with
+  | nil => simp [content]
+  | cons x xs ih => simp [content, ih]
+
+/-- **async_same_content**: under EVERY schedule of senders and the `Start` loop, what has been
+written is a prefix (in program order) of the synchronous dump; once the queue is drained every
+writer holds exactly the synchronous content. -/
+theorem async_same_content (cap : Nat) (evs : List Event) (sched : List Step) :
+    let c := (Chan.mk evs [] [] true).run cap sched
+    (∃ rest, c.written ++ rest = evs) ∧
+    (c.done = true → ∀ w, content w c.written = content w evs) := by
+  intro c
+  have h := (chan_run_inv cap ⟨evs, [], [], true⟩ sched).1
+  simp only [List.nil_append] at h
+  constructor
+  · exact ⟨c.queue ++ c.todo, by simpa [List.append_assoc] using h⟩
+  · intro hd w
+    simp only [Chan.done, Bool.and_eq_true, List.isEmpty_iff] at hd
+    have : c.written = evs := by
+      have h' := h
+      simp only [c] at hd
+      rw [hd.1, hd.2] at h'
+      simpa using h'
+    rw [this]
+
+/-- The alternating schedule send, recv, send, recv, … drains any event list (capacity ≥ 1):
+delivery does complete, so the theorem above is not vacuous. -/
+def alternating : Nat → List Step
+  | 0 => []
+  | n + 1 => .send :: .recv :: alternating n
+
+theorem async_alternating_drains (cap : Nat) (hcap : 0 < cap) (evs wr : List Event) :
+    ((Chan.mk evs [] wr true).run cap (alternating evs.length)).done = true := by
+  induction evs generalizing wr with
+  | nil => simp [alternating, Chan.run, Chan.done]
+  | cons e es ih =>
+    simp only [List.length_cons, alternating, Chan.run, Chan.step, List.length_nil, hcap, if_true,
+      List.nil_append]
+    exact ih _
+
+/-- **unstarted_async_writes_nothing**: a dumper whose `Start` loop was never launched (every
+request-level dumper of the pinned tree) writes nothing under any schedule… -/
+theorem unstarted_async_writes_nothing (cap : Nat) (evs : List Event) (sched : List Step) :
+    ((Chan.mk evs [] [] false).run cap sched).written = [] := by
+  suffices h : ∀ c : Chan, c.started = false → c.written = [] → (c.run cap sched).written = [] from
+    h _ rfl rfl
+  induction sched with
+  | nil => intro c _ hw; simpa [Chan.run] using hw
+  | cons s ss ih =>
+    intro c hs hw
+    simp only [Chan.run]
+    cases h : c.step cap s with
+    | none => exact ih c hs hw
+    | some c' =>
+      apply ih c'
+      · exact (chan_step_inv cap c c' s h).2.trans hs
+      · cases s with
+        | send =>
+          simp only [Chan.step] at h
+          split at h
+          · cases h
+          · split at h
+            · cases h; simpa using hw
+            · cases h
+        | recv => simp [Chan.step, hs] at h
+
+/-- …and once `cap` tasks are queued the next `DumpTo` blocks for ever: no step is enabled. -/
+theorem unstarted_async_blocks (cap : Nat) (c : Chan) (hs : c.started = false)
+    (hfull : c.queue.length = cap) (st : Step) : c.step cap st = none := by
+  cases st with
+  | send =>
+    simp only [Chan.step]
+    split
+    · rfl
+    · simp [hfull]
+  | recv => simp [Chan.step, hs]
+
+example : ((Chan.mk [⟨1, [65]⟩, ⟨2, [66]⟩, ⟨1, [67]⟩] [] [] true).run 2
+    [.recv, .send, .send, .send, .recv, .send, .recv, .recv]).written
+    = [⟨1, [65]⟩, ⟨2, [66]⟩, ⟨1, [67]⟩] := by decide
 
 end Req.Props.C13
